@@ -52,6 +52,8 @@ def cfg_for(rng, k):
         c.p_import_chain, c.p_transitive_ref, c.p_subdir = 0.5, 0.3, 0.5
     if k % 5 == 0:
         c.name_prefix, c.packing = 0.8, 0.5
+    if k % 4 == 3:
+        c.extensible = False   # more traditional schemas: the -O modes (and -O -F name lists) apply to them only
     return c
 
 
@@ -168,13 +170,13 @@ def worker(ctx):
                                 fh.write(text)
                     res.count("stale_outdir_variants")
                     compare("output-directory-holds-older-output:" + stale_kind, lang, opt, cli_variant("stale", lang, opt, od, main, top, "0", False))
-                if opt and lang in ("c", "go") and vi % 2 == case_id % 2:
+                if opt and (lang == "c" or case_id % 3 == 0):
                     # options that take a LIST of names: -O -F with every message name (and an unknown one), across hash seeds
                     from vlib.model import messages_of as _mo
                     names = [mm.name for mm in _mo(root)] + ["NoSuchMessage"]
                     rng.shuffle(names)
                     digs = []
-                    for hs in ["0", "1", "random"] + ([] if ctx.quick else ["2", "random", "random"]):
+                    for hs in ["0", "2", "3", "random"] + ([] if ctx.quick else ["1", "random", "random"]):
                         od = os.path.join(top, f"cli-{lang}-F-hs{hs}-{len(digs)}")
                         os.makedirs(od, exist_ok=True)
                         rc, out, err = sut_compiler.cli([lang, main, od, "-O", "-F", ",".join(names)], cwd=top, hashseed=hs)
